@@ -7,7 +7,7 @@
    allocated; Isolated w K = HeapInv + the client's reach is allocated and disjoint from
    the tracked state's; client_step = ANY change of the heap a memory-safe holder of K can
    cause (arbitrary writes to what it reaches, allocation, no forged pointers). *)
-Require Import Bytes AMap Names State Heap HeapSpec HeapLemmas HeapCopy HeapClient HeapTheorems HeapExamples.
+Require Import Bytes AMap Names State Heap HeapSpec HeapLemmas HeapCopy HeapClient HeapTheorems HeapExamples HeapWf HeapWfHandlers.
 Local Open Scope nat_scope.
 
 (* ---- the Copy methods ---- *)
@@ -155,3 +155,25 @@ Theorem C13_member_getters_copied_isolated : forall w K, Isolated w K ->
   (forall c h' l, channel_users_copied_g w c = Ok (h', l) -> Isolated (mkWorld h' (w_st w)) (l ++ K)).
 Proof. exact member_getters_copied_isolated. Qed.
 Print Assumptions C13_member_getters_copied_isolated.
+
+(* ---- the strong heap invariant HeapWf (Spec/HeapSpec.v): every tracked object is well
+   typed and in bounds and tracked objects share no memory among themselves (a PART in
+   one channel can never shift another channel's array). It holds initially, is kept by
+   every history of events, implies HeapInv, and on such states no getter can panic. ---- *)
+Theorem C13_heapwf_init : HeapWf world_init.
+Proof. exact HeapWf_init. Qed.
+Print Assumptions C13_heapwf_init.
+
+Theorem C13_heapwf_preserved : forall g cfg l w w', HeapWf w -> run_h g cfg w l = Ok w' -> HeapWf w'.
+Proof. exact run_Wf. Qed.
+Print Assumptions C13_heapwf_preserved.
+
+Theorem C13_heapwf_heapinv : forall w, HeapWf w -> HeapInv w.
+Proof. exact HeapWf_HeapInv. Qed.
+Print Assumptions C13_heapwf_heapinv.
+
+Theorem C13_getters_total : forall w, HeapWf w ->
+  (forall n, exists r, lookup_user_g w n = Ok r) /\ (forall n, exists r, lookup_channel_g w n = Ok r) /\
+  (exists r, users_g w = Ok r) /\ (exists r, channels_g w = Ok r).
+Proof. exact getters_total. Qed.
+Print Assumptions C13_getters_total.
